@@ -13,8 +13,8 @@ PROPS_FILE = "Props/C12.v"
 CLASSES = ["Dsc", "Changes", "BuildInfo", "PdiffIndex", "Release"]
 ANCHORS = [("lib/debian/deb822.py",
             ["_multivalued", "Dsc", "Changes", "BuildInfo", "PdiffIndex", "Release"])]
-BUDGET = {"quick": 1600, "thorough": 24000}
-SHARD = 200          # cases per Coq file (a case carries about 4 kB of text)
+BUDGET = {"quick": 1400, "thorough": 16000}
+SHARD = 175          # cases per Coq file (a case carries about 4 kB of text)
 SHARD_IMPORTS = "From Coq Require Import Uint63."
 
 
@@ -178,24 +178,29 @@ def _gen_mvtables(repo):
 # ---------------------------------------------------------------------------
 # correspondence
 
-RULE = ("build stream: class x subset of the class's structured fields (every subset for the 4-field classes, "
-        "sampled subsets of PdiffIndex's 14 incl. every singleton and the full set) x Release size_field_behavior "
-        "(unset/apt-ftparchive/dak) x 1-5 records per present field (a few 0-record lists, classed 'empty', outside "
-        "the property's domain by decision: a field without records is not representable in the format) x key "
-        "spelling (lower/Title/UPPER/mixed) x records as plain dicts or Deb822Dicts, str or int sizes of 1-19 digits, "
-        "tokens over ASCII punctuation and non-space Unicode, optional plain fields in between; the paragraph is "
-        "dumped, re-parsed by the class and by plain Deb822, and dumped again.  malformed build stream: token with LF / "
-        "blank / other Unicode space / empty, missing or extra or re-spelt sub-field, single mapping, string assigned "
-        "to a structured field, same field twice in different case, invalid behaviour name, invalid plain value.  "
-        "text stream: hand-written paragraphs (short/long rows, tabs, trailing blanks, value on the key line, empty "
-        "value, single-line form, CR LF, FF/VT/NEL/LS inside a line, comments, PGP armour) parsed and dumped.  "
+RULE = ("one case = one object and its re-parse.  build stream: class x subset of the class's structured fields (every "
+        "subset for the 4-field classes, sampled subsets of PdiffIndex's 14 incl. every singleton, every co-singleton, "
+        "the empty and the full set) x Release size_field_behavior (unset/apt-ftparchive/dak) x 1-5 records per present "
+        "field x key spelling (lower/Title/UPPER/mixed) x records as plain dicts or Deb822Dicts, str or int sizes of 1-19 "
+        "digits, tokens over ASCII punctuation and non-space Unicode, optional plain fields in between; the object is "
+        "dumped, then (40% of the well-formed cases) edited 1-3 times in place - p[k][i] = rec, p[k][i][sub] = v, "
+        "pop(0)+append, append, p[k] = records (also for a so far absent field), del p[k] - and dumped after every edit, "
+        "so the subset of present fields changes during the life of one object; the last dump is re-parsed by the class "
+        "and by plain Deb822 and dumped again.  A few 0-record lists (classed 'empty': outside the property's domain by "
+        "decision, a field without records is not representable in the format).  malformed build stream: token with LF / "
+        "blank / other Unicode space / empty, missing or extra or re-spelt sub-field, single mapping, string assigned to a "
+        "structured field, same field twice in different case, invalid behaviour name, invalid plain value, misspelt "
+        "field; malformed edits (index out of range, absent key, incomplete record, value with blanks or LF, empty list).  "
+        "text stream: hand-written paragraphs parsed and dumped - 45% 'clean' (every line complete, any spacing, the dump "
+        "must succeed whichever fields are present), the rest short/long rows, tabs, trailing blanks, value on the key "
+        "line, empty value, single-line form, CR LF, FF/VT/NEL/LS inside a line, comments, PGP armour.  "
         "non-trivial = at least one structured field with a record, or any malformed/text case")
 TRUSTED = ["model coq/Deb822/Multivalued.v is a hand transcription of _multivalued.__init__/get_as_string, "
            "Deb822._dump_format, PdiffIndex/Release._fixed_field_lengths/_get_size_field_length and "
            "Release.set_size_field_behavior; tied to the code only by this correspondence",
            "the split of a text into (field, raw value) pairs (Deb822._internal_parser) is NOT modelled here: the "
-           "model's parse stage starts from Deb822(text).items() as observed (C02 owns that parser); "
-           "coq/Deb822/MvProofs.v states exactly which two facts about it the round trip uses",
+           "model's parse stage starts from Deb822(text).items() as observed (C02 owns that parser); the theorem "
+           "C12_paragraph_reparse is stated from the pairs MvProofs.spec_raw and says so",
            "str.splitlines/str.split/str.rstrip as modelled in coq/Lib/PyStr.v with the interpreter's tables (./check LIB)"]
 ASSUMPTIONS = ["field names and sub-field names are US-ASCII (str.lower = ascii_lower); other cases are run and judged "
                "by holds but a model disagreement there is not acted on",
